@@ -23,6 +23,11 @@ def main():
             sh('git checkout -- .', cwd=WT)
             rc, out = sh(f"git apply {os.path.abspath(d)}", cwd=WT)
             if rc:
+                # the diff was made against an earlier HEAD: merge it
+                sh('git checkout -- .', cwd=WT)
+                rc, out = sh(f"git apply --3way {os.path.abspath(d)}", cwd=WT)
+                sh('git reset -q', cwd=WT)
+            if rc:
                 print(f"{d}: does not apply: {out.strip()[:200]}"); bad += 1; continue
             if suite:
                 rc, out = sh(f"PYTHONPATH={WT} /venv/bin/python -m pytest -q -p no:cacheprovider 2>&1 | tail -1", cwd=WT)
